@@ -3,6 +3,7 @@
 
 #pragma once
 
+#include <atomic>
 #include <mutex>
 
 namespace rkcommon {
@@ -35,7 +36,7 @@ namespace rkcommon {
       bool update();
 
      private:
-      bool newValue{false};
+      std::atomic<bool> newValue{false};
       T queuedValue;
       T currentValue;
 
